@@ -131,6 +131,15 @@ Schemas2Of(fl) ==
               g \in { h \in Menu2("f2", fl) : h.tag < 0 \/ h.tag # f.tag } }
           : f \in Menu("f1", fl) }
 
+\* always included (also with MaxFields = 1): two tagged fields declared in descending / ascending
+\* tag order and next to an untagged field - where tag ordering, the count and elision interact
+TagPairSchemas ==
+  { [name |-> "T", flex |-> TRUE,
+     fields |-> <<Fld("f1", "prim", FALSE, k1, FALSE, FALSE, t1, TRUE, SomeDefault(k1), NoSub),
+                  Fld("f2", "prim", FALSE, k2, FALSE, FALSE, t2, TRUE, SomeDefault(k2), NoSub),
+                  Fld("f3", "prim", FALSE, "int8", FALSE, FALSE, -1, FALSE, NullV, NoSub)>>]
+      : k1 \in {"int16", "string"}, k2 \in {"int32", "bool"}, t1 \in {0, 5}, t2 \in {1, 3} }
+
 HeaderSchemas ==
   { [name |-> "RequestHeader", flex |-> fl,
      fields |-> <<Fld("request_api_key", "prim", FALSE, "int16", FALSE, FALSE, -1, FALSE, NullV, NoSub),
@@ -156,13 +165,17 @@ KioSupportedField(f) ==
 KioSupported(s) == \A i \in 1..Len(s.fields) : KioSupportedField(s.fields[i])
 
 AllSchemas0 ==
-  SchemasOf(TRUE) \cup SchemasOf(FALSE) \cup HeaderSchemas
+  SchemasOf(TRUE) \cup SchemasOf(FALSE) \cup HeaderSchemas \cup TagPairSchemas
   \cup (IF MaxFields >= 2 THEN Schemas2Of(TRUE) \cup Schemas2Of(FALSE) ELSE {})
 
 AllSchemas == { s \in AllSchemas0 : KioSupported(s) }
 
 ValuesOf(s) ==
-  IF Len(s.fields) = 1 THEN {RecV(<<a>>) : a \in FieldVals(s.fields[1])}
+  IF Len(s.fields) = 3 THEN
+    {RecV(<<a, b, c>>) : a \in {DefaultOf(s.fields[1]), CHOOSE x \in FieldVals(s.fields[1]) : x # DefaultOf(s.fields[1])},
+                          b \in {DefaultOf(s.fields[2]), CHOOSE x \in FieldVals(s.fields[2]) : x # DefaultOf(s.fields[2])},
+                          c \in {IntV(0), IntV(-128)}}
+  ELSE IF Len(s.fields) = 1 THEN {RecV(<<a>>) : a \in FieldVals(s.fields[1])}
   ELSE {RecV(<<a, b>>) : a \in FieldVals(s.fields[1]), b \in FieldVals(s.fields[2])}
 
 \* variants of conforming encodings (C03): explicit defaults, unknown tags below /
